@@ -52,7 +52,7 @@ from .seqlib import exc_name
 PROPERTY = "C10"
 DRIVER = "TraitsVerif/Driver/Attr.lean"
 PROPS_MODULES = ["TraitsVerif.Props.C10"]
-TRANSLATORS = ["enums"]
+TRANSLATORS = ["enums", "cattr"]
 RULE = ("generated class hierarchies over the default-kind grid (constant, Any list/dict copy, List/Dict/Set objects, "
         "callable-and-args, _name_default, Tuple(List(Int), Int), Union(List(Int), None), Self, default kinds inferred "
         "from a default value that is a list / dict / OrderedDict / defaultdict / Counter / user subclass in a custom "
@@ -65,6 +65,11 @@ RULE = ("generated class hierarchies over the default-kind grid (constant, Any l
         "exhaustively; a case is non-trivial when a default was materialised, a container mutated or a handler "
         "registered; distinct = distinct canonical output line")
 TRUSTED = [
+    "Generated/AttrProg.lean: the source text of setattr_trait / setattr_event / getattr_trait / default_value_for / "
+    "call_notifiers / has_traits_getattro / has_traits_setattro and of the has_notifiers macro, read by "
+    "harness/translate/cattr.py (tokenizer + recursive descent, fails closed) into MiniC terms; the meaning of the "
+    "CPython API calls and of the trait callbacks in Model/MiniC.lean (callPrim, callFPtr, getField: PyDict_* act on "
+    "the one slot, allocation never fails, names are str, NULL default_value reads as None, refcounts dropped) is trusted",
     "containers are modelled as identity + multiset of element identities (order, keys and hashing are not); "
     "mutation = adding one fresh atom",
     "default factories and validators of defaults are parameters of the model (Callback); TraitListObject / "
